@@ -32,6 +32,7 @@ from measured import Measurement
 U1, U2 = measured.si.Meter, measured.us.Foot
 a, s, b, t = Decimal(0) / Decimal(1), Decimal(1) / Decimal(2), Decimal(0) / Decimal(1), Decimal(0) / Decimal(1)
 expr = lambda: Measurement(a * U1, s) * Measurement(b * U2, t)
+plain_expr = lambda: (a * U1) * (b * U2)
 s_ = float(s) if True else 0.0
 t_ = float(t) if True else 0.0
 rho = float((1 * U2).in_unit(U1).magnitude) if U1.dimension is U2.dimension else 1.0
@@ -43,8 +44,11 @@ except Exception as e:
     if defined:
         print('REPRODUCED: raised', type(e).__name__, e); sys.exit(1)
     print('operation undefined, exception acceptable'); sys.exit(0)
-u = float(r.uncertainty.magnitude)
-print('uncertainty', u, 'first-order propagation', sigma)
+plain = plain_expr()
+ru = r.measurand.unit
+k = 1.0 if ru is plain.unit else float((1 * ru).in_unit(plain.unit).magnitude)
+u = float(r.uncertainty.magnitude) * k
+print('result', r, ' uncertainty in', plain.unit, ':', u, ' first-order propagation', sigma)
 if u < 0 or abs(u - sigma) > 1e-6 * max(abs(sigma), 1e-300) + 1e-12:
     print('REPRODUCED: uncertainty', u, 'expected', sigma); sys.exit(1)
 sys.exit(0)
